@@ -410,9 +410,21 @@ func (s *Sim) Solo(name string, f func(t *Task)) *Task {
 // ---------------------------------------------------------------- sink
 
 // InjectedError is the unique error type the simulator injects.
-type InjectedError struct{ Tag string }
+type InjectedError struct {
+	Tag string
+	// WrapsEOF: errors.Is(err, io.EOF) is true although err != io.EOF (e.g. a
+	// transport error that wraps the EOF it saw); still "an error other than io.EOF".
+	WrapsEOF bool
+}
 
 func (e *InjectedError) Error() string { return "sim: injected " + e.Tag }
+
+func (e *InjectedError) Unwrap() error {
+	if e.WrapsEOF {
+		return io.EOF
+	}
+	return nil
+}
 
 type SinkFault struct {
 	AtCall int  `json:"at_call"`         // 1-based call number that fails; 0 = never
@@ -491,6 +503,7 @@ type Delivery struct {
 	FailAfter   int   `json:"fail_after,omitempty"`    // >0: after k bytes... see HasFail
 	HasFail     bool  `json:"has_fail,omitempty"`      // the source fails after FailAfter bytes
 	ErrWithData bool  `json:"err_with_data,omitempty"` // the error comes with the last delivered bytes
+	ErrWrapsEOF bool  `json:"err_wraps_eof,omitempty"` // the injected error wraps io.EOF (errors.Is true, == false)
 }
 
 type SimSource struct {
@@ -510,7 +523,7 @@ type SimSource struct {
 }
 
 func NewSource(t *Task, log *Log, name string, data []byte, d Delivery) *SimSource {
-	return &SimSource{Task: t, Log: log, Name: name, Data: data, Del: d, Err: &InjectedError{Tag: "source " + name}}
+	return &SimSource{Task: t, Log: log, Name: name, Data: data, Del: d, Err: &InjectedError{Tag: "source " + name, WrapsEOF: d.ErrWrapsEOF}}
 }
 
 func (s *SimSource) limit() int {
